@@ -49,12 +49,13 @@ func (cleanScen) Rule(string) string {
 }
 
 var clFiles = []string{"out/a.o", "out/b.o", "out/sub/c.o", "bin/app", "gen.txt", "keep.txt", "src/main.c", "src/gen.c", ".hidden.o", "docs/readme.md", "a.o",
-	"out.tar.gz", "bin/app.exe", "gen.txt.bak", "out2/x.o", "a.o.d"}
+	"out.tar.gz", "bin/app.exe", "gen.txt.bak", "out2/x.o", "a.o.d", "spok"}
 var clDirs = []string{"emptyout", "out/emptysub", "build"}
-var clLiteralOuts = []string{"out", "bin/app", "gen.txt", "missing.bin", "emptyout", "out/sub", "build", "a.o",
+var clLiteralOuts = []string{"out", "bin/app", "gen.txt", "missing.bin", "emptyout", "out/sub", "build", "a.o", "spok",
 	"out.tar.gz", "bin/app.exe", "gen.txt.bak", "out2", "a.o.d", "out", "bin/app", "gen.txt"}
 var clDegenerate = []string{"", ".", "..", "spokfile", "./", "out/.."}
-var clGlobOuts = []string{"*.o", "out/*.o", "**/*.o", "src/gen.*", "nomatch/*.zip", "out/**", "./*.o", "./out/*.o", "out/./*.o", "{out,nomatch}/*.o"}
+var clGlobOuts = []string{"*.o", "out/*.o", "**/*.o", "src/gen.*", "nomatch/*.zip", "out/**", "./*.o", "./out/*.o", "out/./*.o", "{out,nomatch}/*.o",
+	"*", "spok*", "s*"} // the last three also match the spokfile itself (and the file "spok")
 
 func (cleanScen) Gen(r *Rng, cfg GenConfig) any {
 	c := &CleanCase{Tree: map[string]string{}, RemoveErr: -1}
